@@ -308,7 +308,29 @@ func run(args []string) {
 			break
 		}
 	}
-	outs := make([]Out, len(cases))
+	// Results are written in case order as soon as every earlier case is done and then dropped (a reorder window),
+	// so that the memory needed does not grow with the number of cases (each result holds K event lists and a dump).
+	of, err := os.Create(*outP)
+	if err != nil {
+		fmt.Fprintln(os.Stderr, err)
+		os.Exit(2)
+	}
+	bw := bufio.NewWriterSize(of, 1<<20)
+	outs := make([]*Out, len(cases))
+	var outMu sync.Mutex
+	next := 0
+	deliver := func(ci int, o *Out) {
+		outMu.Lock()
+		defer outMu.Unlock()
+		outs[ci] = o
+		for next < len(outs) && outs[next] != nil {
+			b, _ := json.Marshal(outs[next])
+			bw.Write(b)
+			bw.WriteByte('\n')
+			outs[next] = nil
+			next++
+		}
+	}
 	jobs := make(chan int)
 	var wg sync.WaitGroup
 	for wi := 0; wi < *nw; wi++ {
@@ -345,7 +367,7 @@ func run(args []string) {
 				if o.First == nil {
 					o.First = json.RawMessage("{}")
 				}
-				outs[ci] = o
+				deliver(ci, &o)
 			}
 		}()
 	}
@@ -354,16 +376,9 @@ func run(args []string) {
 	}
 	close(jobs)
 	wg.Wait()
-	of, err := os.Create(*outP)
-	if err != nil {
-		fmt.Fprintln(os.Stderr, err)
+	if next != len(outs) {
+		fmt.Fprintf(os.Stderr, "cc run: %d of %d results written\n", next, len(outs))
 		os.Exit(2)
-	}
-	bw := bufio.NewWriter(of)
-	for _, o := range outs {
-		b, _ := json.Marshal(o)
-		bw.Write(b)
-		bw.WriteByte('\n')
 	}
 	bw.Flush()
 	of.Close()
